@@ -256,10 +256,10 @@ def run_case(case):
             twice = [c for c, n in seen.items() if n > 1]
             if twice:
                 acc.count('jobs:contig_in_two_jobs', len(twice))
-            order = tuple(e['job'] for e in sorted(evs, key=lambda e: e['done']))
-            acc.sigs.add(f'order/{hash(order) & 0xffffff}') if False else None
-            acc.mon.setdefault('jobs:completion_orders_seen', 0)
-            acc.mon['jobs:completion_orders_seen'] += 1 if len(order) > 1 else 0
+            done_order = tuple(e['job'] for e in sorted(evs, key=lambda e: e['done']))
+            start_order = tuple(e['job'] for e in sorted(evs, key=lambda e: e['start']))
+            if len(evs) > 1:
+                acc.count('jobs:finished_out_of_start_order' if done_order != start_order else 'jobs:finished_in_start_order')
         if len(with_reads) >= 2 and kinds.get('unmapped', 0) >= 1:
             acc.sigs.add(f"{case['i']}/{method}/{multi}/{threads}/{no_rejects}/{style}")
         acc.sample = {'config': {k: v for k, v in cfg.items() if k != 'contigs'}, 'contigs': gen.refs, 'input_records': len(recs),
